@@ -274,6 +274,8 @@ pub fn run(tables: &Value, exhaustive: bool, out: &mut Out) {
             a.check(f.raw_value() == r as u16 && f.value() as u32 == r >> 8, || json!(r));
             let g = FixedPointI8::new_raw(r as u16 as i16);
             a.check(g.raw_value() == r as u16 as i16, || json!(r));
+            let want = tables["fx88s"][r.to_string().as_str()].as_i64().unwrap();
+            a.check(g.value() as i64 == want, || json!({"raw": r, "value": g.value(), "want": want}));
         }
         let n = a.checked;
         a.emit(out, n);
